@@ -203,6 +203,24 @@ class Conformance:
                         if cj[0] == "cmp" and cj[1] == "Eq" and cj[3] == T.ZERO and self.value_eq(cj[2], d):
                             ok = True
             if not ok:
+                # delegation through the operator itself: `return self / b` hands the zero divisor to the plain method
+                fn = self.repo.func(self.mod, "%s.%s" % (self.cls, meth))
+                names = [x.arg for x in fn.args.args]
+                body_ = [st for st in fn.body if not (isinstance(st, ast.Expr) and isinstance(st.value, ast.Constant))]
+                if len(body_) == 1 and isinstance(body_[0], ast.Return) and isinstance(body_[0].value, ast.BinOp) and len(names) == 2 \
+                        and isinstance(body_[0].value.left, ast.Name) and body_[0].value.left.id == names[0] \
+                        and isinstance(body_[0].value.right, ast.Name) and body_[0].value.right.id == names[1]:
+                    plain = {ast.Div: ("__truediv__", "__div__"), ast.Mod: ("__mod__",), ast.FloorDiv: ("__floordiv__",)}.get(type(body_[0].value.op), ())
+                    for target in plain:
+                        if target != meth and self.has(target):
+                            for kind_, cond, v in self.eval(target, bterm):
+                                if kind_ == "raise" and v == ("str", "ZeroDivisionError"):
+                                    for cj in conjuncts(cond):
+                                        if cj[0] == "cmp" and cj[1] == "Eq" and cj[3] == T.ZERO and self.value_eq(cj[2], d):
+                                            ok = True
+                            if ok:
+                                break
+            if not ok:
                 # pure delegation to a method of the class that does the check
                 fn = self.repo.func(self.mod, "%s.%s" % (self.cls, meth))
                 names = [x.arg for x in fn.args.args]
